@@ -1630,6 +1630,11 @@ func runAnalysis(o Opts) error {
 	e.freqs(60 * scale)
 	e.docs(40 * scale)
 	e.matchRoundTrip(10 * scale)
+	if o.Thorough() {
+		e.sweep(8, 6, 60000, 600, 12)
+	} else {
+		e.sweep(7, 6, 20000, 150, 3)
+	}
 	e.w.Close()
 	return nil
 }
